@@ -9,7 +9,7 @@
 (*    file reports), probes : [c, ok, v] (LookupCID / Lookup), all : [c, v] *)
 (*    (All, in order), mapping : [c, v] (GetMapping / All collected)]       *)
 (* kind is "cid", "tu" (values are rune sequences), "rect-cid", "rect-tu",   *)
-(* "wide-cid", "frame-cid" (a predefined CMap before and after a Clone got a *)
+(* "wide-cid", "full-cid", "frame-cid" (a predefined CMap before and after a Clone got a *)
 (* new mapping).  Records of kind "cid" / "rect-cid" may have been taken     *)
 (* after such a clone step (clonestep): the reference is the same.          *)
 (* Only Ref... operators (and the closed form of the lexicographic rank,    *)
@@ -96,6 +96,24 @@ WideCaseOK(c) ==
      /\ Cardinality({L[i].c : i \in 1..Len(L)}) = Len(L)
      /\ \A i \in 1..Len(L) : L[i].v = MeaningCID(f, L[i].c)
 
+\* one cidrange that fills a code space of exactly as many codes as one enumeration may
+\* visit (kind "full-cid"): the enumeration delivers every code - allcount is the size of
+\* the range, all holds the first and the last three entries, the last code is among them
+RECURSIVE Prod(_, _, _)
+Prod(lo, hi, k) == IF k > Len(lo) THEN 1 ELSE (hi[k] - lo[k] + 1) * Prod(lo, hi, k + 1)
+FullCaseOK(c) ==
+  LET f == c.file
+      L == c.all
+      r == f.ranges[1]
+  IN /\ c.err = ""
+     /\ SpaceOK(c)
+     /\ \A i \in 1..Len(c.probes) : c.probes[i].v = MeaningCID(f, c.probes[i].c)
+     /\ c.allcount = Prod(r.first, r.last, 1)
+     /\ Cardinality({L[i].c : i \in 1..Len(L)}) = Len(L)
+     /\ \A i \in 1..Len(L) : L[i].v = MeaningCID(f, L[i].c)
+     /\ \E i \in 1..Len(L) : L[i].c = r.last
+     /\ \E i \in 1..Len(L) : L[i].c = r.first
+
 \* frame condition (kind "frame-cid"): Clone copies a File, so SetMapping on the clone leaves
 \* the original's answers (mapping: lookups before, probes: after) and enumeration (all2
 \* before, all after) as they were
@@ -106,7 +124,8 @@ FrameCaseOK(c) == /\ c.err = ""
 
 CaseOK(c) == IF c.kind \in {"cid", "tu"} THEN MapCaseOK(c)
              ELSE IF c.kind = "frame-cid" THEN FrameCaseOK(c)
-             ELSE IF c.kind = "wide-cid" THEN WideCaseOK(c) ELSE RectCaseOK(c)
+             ELSE IF c.kind = "wide-cid" THEN WideCaseOK(c)
+             ELSE IF c.kind = "full-cid" THEN FullCaseOK(c) ELSE RectCaseOK(c)
 
 VARIABLES i, bad, done
 vars == <<i, bad, done>>
